@@ -1402,7 +1402,7 @@ def genhkl(unit_cell, sysconditions, sintlmin, sintlmax, crystal_system='triclin
 def sysabs(hkl, syscond, crystal_system='triclinic', cell_choice='standard'):
     """
     Defined as sysabs_unique with the exception that permutations in  
-    trigonal and hexagonal lattices are taken into account.
+    trigonal, hexagonal, rhombohedral and cubic lattices are taken into account.
 
 	INPUT: hkl     : [h k l] 
            syscond : [1x26] with condition for systematic absences in this
@@ -1445,7 +1445,7 @@ def sysabs(hkl, syscond, crystal_system='triclinic', cell_choice='standard'):
     """
 
     sys_type = sysabs_unique(hkl, syscond)
-    if cell_choice == 'rhombohedral':
+    if cell_choice == 'rhombohedral' or crystal_system == 'cubic':
         if sys_type == 0:
             h = hkl[1]
             k = hkl[2]
